@@ -187,3 +187,212 @@ Example C03_source_tie_from_tile_matrix_set_example :
   gen_FromTileMatrixSet fo_fixed t 14 = Ok (Some (gen_empty_indexT gRD), None) /\
   gen_FromTileMatrixSet fo_fixed tbad 14 = Ok (None, Some ErrOther).
 Proof. vm_compute. repeat split; reflexivity. Qed.
+
+From Coq Require Import NArith.
+From Texel Require Import Index.GoDeviation Index.ProofsGenDeviation.
+From Texel.Gen Require Import DeviationGen.
+
+(** ** tie G2: [pointindex.DeviationStats] REGENERATED from source on this run (gen/DeviationGen.v, translator/deviation.go)
+    and the deviation bound of this property stated on the number it returns.
+
+    REGENERATED: the numeric statements of DeviationStats: the two early returns, floatSpanX, floatRes, intRes = XSpan /
+    int64(deepestSize) (truncating int64 division, DivZero panic), floatRecalcMaxX, intRecalcMaxX = ToGeomOrd(intRes *
+    int64(deepestSize)), deviationInUnits, deviationInPixels; FromTileMatrixSet, ToGeomOrd, Extent.XSpan are the functions
+    regenerated in gen/IndexTopGen.v, instantiated at the EXACT reading of float64: [fo_exact lg] (Index/GoDeviation.v:
+    carrier Q, field operations, int64(f) = truncation, math.Pow on an integer exponent, math.Log2 = any [lg]).
+    MODELLED / TRUSTED: that reading (the rounding of the real binary64 computation is OUTSIDE the theorems: the C03 harness
+    compares the reported number with exact rationals at run time); tms20.TileMatrixSet = the view [gotms] (the method
+    MatrixBoundingBox is regenerated over Q in TmsAddrGen.v and composed below); the [stats += fmt.Sprintf(..)] statements
+    are checked on the AST to build the statistics text only and are dropped (their dereferences of ix are kept).
+    [pointindex.IsQuadTree] is not a wrapper: it is the whole function regenerated in gen/QuadTreeGen.v
+    (C14_source_tie_isQuadTree: = the model's isQuadTree for every tile matrix set, no hypotheses).
+
+    [deviation_closed bl tr e d] = span - (span_int / 2^d) * 2^d / 10^10: span = the exact x span of the bounding box of
+    tile matrix 0, span_int = the x span of its integer image e = the extent of the index, d = the deepest level. *)
+Theorem C03_source_tie_deviation_stats :
+  forall (lg : Q -> Q) (t : gotms (fo_exact lg) gen_OutsideGridError) (tmid : Z),
+  (forall bl tr er, gotms_MatrixBoundingBox t 0 = (bl, tr, Some er) ->
+     gen_DeviationStats lg t tmid = DOk (0%Q, 0%Q, Some er)) /\
+  (forall bl tr (d : nat), gotms_MatrixBoundingBox t 0 = (bl, tr, None) ->
+     tms_level (fo_exact lg) t tmid = N.of_nat d -> (d <= 32)%nat ->
+     let e := bbox_extent (fo_exact lg) bl tr in
+     eminx e <= emaxx e -> is_i64 (emaxx e - eminx e) ->
+     exists U P : Q, gen_DeviationStats lg t tmid = DOk (U, P, None) /\
+       (U == deviation_closed bl tr e d)%Q /\
+       (P == U / ((fst tr - fst bl) / inject_Z (pow2 d)))%Q).
+Proof. exact gen_DeviationStats_spec. Qed.
+Print Assumptions C03_source_tie_deviation_stats.
+
+(** the closed form in terms of the grid [tmsGrid e d] the index is built for (C03_source_tie_from_tile_matrix_set):
+    deviation * 10^10 = (X - gsize * gres) + (frac tr - frac bl): the first term is EXACTLY the [dev] of
+    C03_centre_deviation_bound; [q_frac x] = x * 10^10 - int64(x * 10^10) is what FromGeomOrd truncates away of a corner *)
+Theorem C03_deviation_units : forall (lg : Q -> Q) (bl tr : Q * Q) (d : nat),
+  let e := bbox_extent (fo_exact lg) bl tr in
+  let g := tmsGrid e d in
+  (deviation_closed bl tr e d * units_per_one ==
+   inject_Z ((emaxx e - eminx e) - gsize g * gres g) + (q_frac (fst tr) - q_frac (fst bl)))%Q.
+Proof. exact deviation_closed_units. Qed.
+Print Assumptions C03_deviation_units.
+
+Theorem C03_deviation_frac_bounds : forall x : Q,
+  (- (1) < q_frac x)%Q /\ (q_frac x < 1)%Q /\ ((0 <= x)%Q -> (0 <= q_frac x)%Q) /\ ((x <= 0)%Q -> (q_frac x <= 0)%Q).
+Proof. exact q_frac_bounds. Qed.
+Print Assumptions C03_deviation_frac_bounds.
+
+(** THE BOUND on the number the regenerated function returns: for every view of a tile matrix set and deepest id for
+    which FromTileMatrixSet succeeds, every level l <= d and pixel k: the distance from the returned x ordinate of pixel
+    k (ToGeomOrd of the centroid, read exactly) to the ideal centre bl.x + (k + 1/2) * span / 2^l lies in
+    (-1e-10, U + 3.5e-10); when the two corner ordinates are whole numbers of units of 1e-10 ([representable]: true of
+    the built-in sets, see the examples) it lies in [0, U + 0.5e-10], and in [0, U] above the deepest level or for an even
+    resolution.  The half unit is the one of C03_deviation_bound_refuted; the other 3 units are the truncation of the two
+    corners by FromGeomOrd (C03_deviation_negative_example: the reported deviation can even be negative then). *)
+Theorem C03_source_tie_deviation_bound :
+  forall (lg : Q -> Q) (t : gotms (fo_exact lg) gen_OutsideGridError) (tmid : Z) (bl tr : Q * Q) (d : nat),
+  gotms_MatrixBoundingBox t 0 = (bl, tr, None) ->
+  tms_level (fo_exact lg) t tmid = N.of_nat d -> (d <= 32)%nat ->
+  let e := bbox_extent (fo_exact lg) bl tr in
+  let g := tmsGrid e d in
+  eminx e <= emaxx e -> is_i64 (emaxx e - eminx e) ->
+  exists U P : Q, gen_DeviationStats lg t tmid = DOk (U, P, None) /\
+    forall (l : nat) (k y : Z), (l <= d)%nat -> 0 <= k < pow2 l ->
+      let dist := (ideal_centre_x bl tr l k - units_of (fst (quadCentroid g l k y)))%Q in
+      ((- (1) / units_per_one < dist /\ dist < U + (7 # 2) / units_per_one) /\
+       (representable (fst bl) -> representable (fst tr) ->
+          0 <= U /\ 0 <= dist /\ dist <= U + (1 # 2) / units_per_one /\
+          (((l < d)%nat \/ Z.even (gres g) = true) -> dist <= U)))%Q.
+Proof. exact gen_DeviationStats_bounds. Qed.
+Print Assumptions C03_source_tie_deviation_bound.
+
+(** sign and zero: for representable corners the reported deviation is (X mod 2^d) units: never negative, and zero
+    exactly when the integer span divides evenly into the pixels of the deepest level (the "round" sets) *)
+Theorem C03_deviation_sign : forall (lg : Q -> Q) (bl tr : Q * Q) (d : nat),
+  let e := bbox_extent (fo_exact lg) bl tr in
+  representable (fst bl) -> representable (fst tr) ->
+  (deviation_closed bl tr e d * units_per_one == inject_Z ((emaxx e - eminx e) mod pow2 d))%Q /\
+  (0 <= deviation_closed bl tr e d)%Q /\
+  ((deviation_closed bl tr e d == 0)%Q <-> (pow2 d | emaxx e - eminx e)).
+Proof. exact deviation_sign. Qed.
+Print Assumptions C03_deviation_sign.
+
+From Texel Require Import Index.GoDeviationView Index.ProofsGenDeviationView Tms.Json Tms.Model.
+From Texel.Gen Require Import TmsData TmsAddrGen.
+
+(** the two source ties composed: DeviationStats regenerated, on a tile matrix set of the model read through
+    MatrixBoundingBox as REGENERATED in gen/TmsAddrGen.v ([gotms_of_tms], Index/GoDeviationView.v) *)
+Theorem C03_source_tie_deviation_stats_tms : forall (lg : Q -> Q) (t : tms) (tmid : Z),
+  match gen_MatrixBoundingBox t 0 with
+  | Tms.Model.Ok (bl, tr) =>
+      forall d : nat, tms_level (fo_exact lg) (gotms_of_tms lg gen_OutsideGridError t) tmid = N.of_nat d -> (d <= 32)%nat ->
+        let e := bbox_extent (fo_exact lg) bl tr in
+        eminx e <= emaxx e -> is_i64 (emaxx e - eminx e) ->
+        exists U P : Q, gen_DeviationStats lg (gotms_of_tms lg _ t) tmid = DOk (U, P, None) /\
+          (U == deviation_closed bl tr e d)%Q /\ (P == U / ((fst tr - fst bl) / inject_Z (pow2 d)))%Q
+  | Tms.Model.Error => gen_DeviationStats lg (gotms_of_tms lg _ t) tmid = DOk (0%Q, 0%Q, Some ErrOther)
+  | _ => True
+  end.
+Proof. exact gen_DeviationStats_tms. Qed.
+Print Assumptions C03_source_tie_deviation_stats_tms.
+
+(** with math.Log2 read exactly ([lg_floor]) the deepest level is id + floor(log2(tile width of matrix 0)) + 4 *)
+Theorem C03_source_tie_deviation_level : forall (E : Type) (t : gotms (fo_exact lg_floor) E) (tmid : Z),
+  0 <= tmid < 2 ^ 32 -> (tms_root_width t < 2 ^ 64)%N ->
+  tms_level (fo_exact lg_floor) t tmid = (Z.to_N tmid + N.log2 (tms_root_width t) + 4)%N.
+Proof. exact (@tms_level_lg_floor). Qed.
+Print Assumptions C03_source_tie_deviation_level.
+
+(** IsQuadTree and the y axis.  DeviationStats measures the x span only; main.validateTileMatrixSet calls
+    pointindex.IsQuadTree first (C03_source_tie_deepest / C14_source_flow).  IsQuadTree is not a wrapper around anything: it
+    is the function regenerated whole in gen/QuadTreeGen.v ([gen_isQuadTree], = the model's isQuadTree for every set:
+    C14_source_tie_isQuadTree).  When it accepts, the bounding box of tile matrix 0 computed by the regenerated
+    MatrixBoundingBox is square in exact arithmetic, so the number reported for x is the deviation of y as well, up to the
+    truncation of the corners (C03_centre_deviation_bound_y asks for equal INTEGER spans) *)
+From Texel.Gen Require Import QuadTreeGen.
+Theorem C03_source_tie_quadtree_square_bbox : forall (t : tms) (bl tr : Q * Q),
+  gen_isQuadTree t = Accept -> gen_MatrixBoundingBox t 0 = Tms.Model.Ok (bl, tr) ->
+  (snd tr - snd bl == fst tr - fst bl)%Q.
+Proof. exact quadtree_bbox_square. Qed.
+Print Assumptions C03_source_tie_quadtree_square_bbox.
+
+(** the built-in WebMercatorQuad (gen/TmsData.v), deepest tile matrix 14 (level 26): corners (-20037508.3427892,
+    20037508.342789296) are whole numbers of units, resolution 0.5971642834 (even), the regenerated DeviationStats
+    returns 102157/19531250 = 0.0052304384 units (0.00876 pixels), and the bound is NEARLY ATTAINED: the last pixel of
+    the deepest level is at distance deviation * (1 - 2^-27) from its ideal centre *)
+Example C03_deviation_example_WebMercatorQuad :
+  exists t bl tr, decodeTMS gen_doc_WebMercatorQuad = Tms.Model.Ok t /\ gen_MatrixBoundingBox t 0 = Tms.Model.Ok (bl, tr) /\
+    let v := gotms_of_tms lg_floor gen_OutsideGridError t in
+    let e := bbox_extent (fo_exact lg_floor) bl tr in
+    tms_level (fo_exact lg_floor) v 14 = 26%N /\
+    representable (fst bl) /\ representable (fst tr) /\
+    eminx e <= emaxx e /\ is_i64 (emaxx e - eminx e) /\ gres (tmsGrid e 26) = 5971642834 /\
+    exists U P, gen_DeviationStats lg_floor v 14 = DOk (U, P, None) /\
+      (U == 102157 # 19531250)%Q /\
+      let dist := (ideal_centre_x bl tr 26 (2 ^ 26 - 1) - units_of (fst (quadCentroid (tmsGrid e 26) 26 (2 ^ 26 - 1) 0)))%Q in
+      (dist == U * (1 - (1 # 2 ^ 27)))%Q.
+Proof.
+  destruct (decodeTMS gen_doc_WebMercatorQuad) as [t | | |] eqn:Ht; try (vm_compute in Ht; discriminate).
+  destruct (gen_MatrixBoundingBox t 0) as [[bl tr] | | |] eqn:Hb;
+    try (vm_compute in Ht; injection Ht as <-; vm_compute in Hb; discriminate).
+  exists t, bl, tr. split; [reflexivity |]. split; [exact Hb |].
+  vm_compute in Ht. injection Ht as <-. vm_compute in Hb. injection Hb as <- <-.
+  cbv zeta. split; [vm_compute; reflexivity |].
+  split; [vm_compute; reflexivity |]. split; [vm_compute; reflexivity |].
+  split; [vm_compute; discriminate |]. split; [vm_compute; split; [discriminate | reflexivity] |].
+  split; [vm_compute; reflexivity |].
+  eexists. eexists. split; [vm_compute; reflexivity |]. split; vm_compute; reflexivity.
+Qed.
+
+(** the built-in NetherlandsRDNewQuad, tile matrix 14: a round set, the regenerated DeviationStats returns 0 *)
+Example C03_deviation_example_RD :
+  exists t, decodeTMS gen_doc_NetherlandsRDNewQuad = Tms.Model.Ok t /\
+    exists U P, gen_DeviationStats lg_floor (gotms_of_tms lg_floor gen_OutsideGridError t) 14 = DOk (U, P, None) /\
+      (U == 0)%Q /\ (P == 0)%Q.
+Proof.
+  destruct (decodeTMS gen_doc_NetherlandsRDNewQuad) as [t | | |] eqn:Ht; try (vm_compute in Ht; discriminate).
+  exists t. split; [reflexivity |]. vm_compute in Ht. injection Ht as <-.
+  eexists. eexists. split; [vm_compute; reflexivity |]. split; vm_compute; reflexivity.
+Qed.
+
+(** corners that are NOT whole numbers of units: bounding box (0.00000000005, 0.0256) (origin with 11 decimals, 256 cells
+    of 0.0001), tile width 256, tile matrix 0 (level 12).  FromGeomOrd truncates the origin to 0, the integer span 256000000
+    divides evenly (resolution 62500), and the reported deviation is NEGATIVE: -0.5e-10 (the real DeviationStats prints
+    -0.00000000005 for this set) while pixel 0 is 0.5e-10 * (1 - 2^-13) from its ideal centre.  So without representable
+    corners the reported number alone does not bound the distance; the constants of C03_source_tie_deviation_bound cover it. *)
+Example C03_deviation_negative_example :
+  let bl : Q * Q := (5 # 100000000000, 5 # 100000000000)%Q in
+  let tr : Q * Q := (256 # 10000, 256 # 10000)%Q in
+  let t : gotms (fo_exact lg_floor) gen_OutsideGridError := mk_gotms (fo_exact lg_floor) _ [(0, mk_gotm 256)] (fun _ => (bl, tr, None)) in
+  let e := bbox_extent (fo_exact lg_floor) bl tr in
+  tms_level (fo_exact lg_floor) t 0 = 12%N /\ ~ representable (fst bl) /\
+  exists U P, gen_DeviationStats lg_floor t 0 = DOk (U, P, None) /\
+    (U == - (5 # 100000000000))%Q /\
+    (ideal_centre_x bl tr 12 0 - units_of (fst (quadCentroid (tmsGrid e 12) 12 0 0)) == (5 # 100000000000) + (1 # 8192) * U)%Q.
+Proof.
+  cbv zeta. split; [vm_compute; reflexivity |]. split; [intro H; vm_compute in H; discriminate |].
+  eexists. eexists. split; [vm_compute; reflexivity |]. split; vm_compute; reflexivity.
+Qed.
+
+(** the panics of the real function are in the regenerated one: deepest level 64 (WebMercatorQuad id 52, the shape of F12:
+    validateTileMatrixSet now rejects an id that is not in the set first) divides by zero inside FromTileMatrixSet *)
+Example C03_deviation_stats_divzero_example :
+  exists t, decodeTMS gen_doc_WebMercatorQuad = Tms.Model.Ok t /\
+    gen_DeviationStats lg_floor (gotms_of_tms lg_floor gen_OutsideGridError t) 52 = DPanic (PanicErr DivZero).
+Proof.
+  destruct (decodeTMS gen_doc_WebMercatorQuad) as [t | | |] eqn:Ht; try (vm_compute in Ht; discriminate).
+  exists t. split; [reflexivity |]. vm_compute in Ht. injection Ht as <-. vm_compute. reflexivity.
+Qed.
+
+(** a pixel below the tool's unit: bounding box (0, 0.000000026), tile width 256, tile matrix 0 (level 12): the integer
+    span 260 is below 2^12, the resolution is 0, the reported deviation is the whole span (4096 pixels: validation only
+    logs a warning) -- and snapping then divides by the resolution 0 (InsertPoint -> floorDiv; reproduced on the real code:
+    see the agent's report; the theorems of this property about the points of a grid carry 0 < gres g) *)
+Example C03_deviation_zero_resolution_example :
+  let bl : Q * Q := (0, 0)%Q in
+  let tr : Q * Q := (26 # 1000000000, 26 # 1000000000)%Q in
+  let t : gotms (fo_exact lg_floor) gen_OutsideGridError := mk_gotms (fo_exact lg_floor) _ [(0, mk_gotm 256)] (fun _ => (bl, tr, None)) in
+  gres (tmsGrid (bbox_extent (fo_exact lg_floor) bl tr) 12) = 0 /\
+  exists U P, gen_DeviationStats lg_floor t 0 = DOk (U, P, None) /\ (U == 26 # 1000000000)%Q /\ (P == 4096)%Q /\
+    gen_floorDiv64 (fo_exact lg_floor) 1 (gres (tmsGrid (bbox_extent (fo_exact lg_floor) bl tr) 12)) = Err DivZero.
+Proof.
+  cbv zeta. split; [vm_compute; reflexivity |].
+  eexists. eexists. split; [vm_compute; reflexivity |]. repeat split; vm_compute; reflexivity.
+Qed.
